@@ -148,7 +148,11 @@ def make_context(scn, rec):
 
     model = {}
     slaves = {}
-    for ukey in sorted(scn['units'], key=lambda s: int(s)):
+    # the order in which the application put the units into its slaves dict (ascending unless the scenario says otherwise)
+    order = [str(u) for u in scn.get('unit_order') or []]
+    if sorted(order) != sorted(scn['units']):
+        order = sorted(scn['units'], key=lambda s: int(s))
+    for ukey in order:
         layout = scn['units'][ukey]
         share = layout.get('share') or {}
         blocks = {}
